@@ -93,5 +93,8 @@ func rfc1035tofqdn(rfc1035RR []byte) string {
 		}
 	}
 
+	if fqdn == "" {
+		return ""
+	}
 	return fqdn[0 : len(fqdn)-1]
 }
